@@ -23,6 +23,15 @@ Streams
              oracle-fullname  the program is saved in a scratch project and imported: for every
                               def/class reachable through classes only,
                               full_name == obj.__module__ + '.' + obj.__qualname__
+                              on four routes to the same definition: get_names (TreeNameDefinition),
+                              infer() on its name, the names parent() hands out along every chain and the
+                              names get_context returns (ValueNames)
+  fullname-collision  coverage of the part of the domain where the module's dotted path and the
+             qualname share spellings (gen/c18_layouts.py): the analysed file is f.py, K/f.py, f/f/f.py,
+             K/__init__.py ... (regular and namespace parents, depth <= 3) and its functions, classes,
+             methods and nested classes are called like the last / first component of that path; a
+             deterministic family (every path shape x three programs) plus random programs whose
+             functions and classes share a small pool of spellings
 """
 import ast
 import importlib
@@ -35,6 +44,7 @@ import tokenize
 import common
 from common import short
 from gen import nesting as G
+from gen import c18_layouts as GL
 
 MODELS = ['Nesting']
 MODEL_TARGETS = ['JediModel.Model.Nesting', 'JediModel.Lemmas.Nesting', 'JediModel.Gen.C18']
@@ -52,7 +62,14 @@ MANIFEST = dict(
          'module name is not a key of BaseName._mapping, and never contains <locals>. Kernel-checked counter-witnesses '
          'for each hypothesis (replayed on the real code as known findings). Tie: exact-equality correspondence of '
          'get_context at every position, parent() chains and full_name with the model on generated programs and on '
-         'real source files; the Python-side spec is validated against CPython by executing/compiling the programs.',
+         'real source files; the Python-side spec is validated against CPython by executing/compiling the programs. '
+         'full_name: the operand order of the final return of get_qualified_names is read from the source '
+         '(Gen.C18.moduleJoin; any further statement in that function breaks the tie), module_join_is_concat shows it '
+         'is plain concatenation, full_name_eq_qualname_partial / full_name_of_context_eq_qualname_partial are stated '
+         'over it for both kinds of names (TreeNameDefinition, ValueName), full_name_keeps_repeated_components is the '
+         'kernel-checked case of a module K.K whose class, method and nested class are all called K; projects whose '
+         'module path collides with the definition names at every depth are generated, imported with CPython and '
+         'compared on four routes (get_names, infer, parent(), get_context).',
     note='Modelled not verified: parso (tokeniser/parser; get_leaf_for_position = first leaf whose end is not before the '
          'position), the printer and table builder of harness/gen/nesting.py (cross-checked against the parso tree on '
          'every program), module string_names taken as a parameter (validated by importing the scratch project). '
@@ -72,6 +89,19 @@ LAYOUTS = [
     ('mapped', 'macpath.py', [], ['macpath']),
 ]
 LAYOUT = {l[0]: l for l in LAYOUTS}
+
+
+def resolve_layout(layout):
+    """(relative file, other files, dotted module path) of a named layout or of a generated one
+    (gen/c18_layouts.py: a dict with rel / extra / dotted)"""
+    if isinstance(layout, dict):
+        return layout['rel'], list(layout['extra']), list(layout['dotted'])
+    _, rel, extra, dotted = LAYOUT[layout]
+    return rel, extra, dotted
+
+
+def layout_key(layout):
+    return layout if isinstance(layout, str) else layout['rel'] + '|' + ','.join(layout['extra'])
 
 
 # ---------------------------------------------------------------------------- python-side truth
@@ -294,7 +324,7 @@ def jedi_side(src, path, root, table, positions):
                 p = p.parent()
                 if p is None:
                     break
-                chain.append([scope_index_of(table, p), p.type, p.name, p.line])
+                chain.append([scope_index_of(table, p), p.type, p.name, p.line, p.full_name])
             full = n.full_name
         except Exception as e:
             cls, site = common.exc_site(e)
@@ -303,6 +333,17 @@ def jedi_side(src, path, root, table, positions):
             continue
         out['defs'][str(li)] = {'chain': chain, 'full': full, 'type': n.type, 'name': n.name,
                                 'line': n.line, 'column': n.column}
+        if n.type in ('function', 'class') and table['leaves'][li][6] == G.ROLE['def']:
+            # the same definition reached through infer() on its own name (a ValueName, not the
+            # TreeNameDefinition of get_names): results that sit on this very name
+            try:
+                res = script.infer(n.line, n.column)
+                out['defs'][str(li)]['infer'] = [r.full_name for r in res
+                                                 if (r.line, r.column) == (n.line, n.column)
+                                                 and r.module_path is not None and str(r.module_path) == str(path)]
+            except Exception as e:
+                cls, site = common.exc_site(e)
+                out['raised'].append(('infer', n.line, n.column, '%s@%s' % (cls, site)))
     return out
 
 
@@ -310,7 +351,7 @@ def analyse(item):
     """pure (picklable) analysis of one program on the real code + CPython. item = dict(prog=,
     layout=, tag=) or dict(file=, tag=) for corpus files"""
     layout = item.get('layout', 'flat')
-    _, rel, extra, dotted = LAYOUT[layout]
+    rel, extra, dotted = resolve_layout(layout)
     if 'prog' in item:
         src, table = G.render(item['prog'])
         ptable = G.table_from_parso(src)
@@ -414,19 +455,49 @@ def analyse(item):
             if q is not None:
                 out['coqual'][str(ast2scope[i])] = q
         nfn = 0
+        collide = 0
+        sh = 'module-name-in-mapping-table' if layout == 'mapped' else 'unclassified'
+
+        def judge(route, lf, got, q):
+            if got != q:
+                out['fails'].append(('oracle-fullname', 'full_name differs from __module__ + "." + __qualname__',
+                                     {'source': src, 'line': lf[0], 'column': lf[1], 'layout': layout, 'shape': sh,
+                                      'route': route},
+                                     q, {'full_name': got, 'shape': sh, 'route': route}))
+        runtime_of_scope = {ast2scope[i]: q for i, q in objs.items()}
         for i, q in objs.items():
             s = table['scopes'][ast2scope[i]]
             dinfo = J['defs'].get(str(s[6]))
             if dinfo is None or dinfo.get('raised'):
                 continue
             nfn += 1
-            if dinfo['full'] != q:
-                sh = 'module-name-in-mapping-table' if layout == 'mapped' else 'unclassified'
-                lf = leaves[s[6]]
-                out['fails'].append(('oracle-fullname', 'full_name differs from __module__ + "." + __qualname__',
-                                     {'source': src, 'line': lf[0], 'column': lf[1], 'layout': layout, 'shape': sh},
-                                     q, {'full_name': dinfo['full'], 'shape': sh}))
+            lf = leaves[s[6]]
+            # does a component of the module path reappear in the qualname part?
+            if set(q[len(modname) + 1:].split('.')) & set(dotted):
+                collide += 1
+            # route 1: the definition as listed by get_names (TreeNameDefinition)
+            judge('get_names', lf, dinfo['full'], q)
+            # route 2: infer() on the name of the definition (ValueName)
+            for got in dinfo.get('infer', []):
+                nfn += 1
+                judge('infer', lf, got, q)
+        # route 3: the def/class names that parent() hands out along the chain of ANY definition
+        # (parameters, assigned names, ... included)
+        seen = set()
+        for li, dinfo in J['defs'].items():
+            for el in dinfo.get('chain', []):
+                sc, full = el[0], el[4]
+                if sc in runtime_of_scope and (sc, full) not in seen:
+                    seen.add((sc, full))
+                    nfn += 1
+                    judge('parent', leaves[table['scopes'][sc][6]], full, runtime_of_scope[sc])
+        # route 4: the names get_context returns
+        for sc, full in J['scopefull'].items():
+            if int(sc) in runtime_of_scope:
+                nfn += 1
+                judge('get_context', leaves[table['scopes'][int(sc)][6]], full, runtime_of_scope[int(sc)])
         out['judged']['oracle-fullname'] = nfn
+        out['collide'] = collide
         return out
     finally:
         shutil.rmtree(root, ignore_errors=True)
@@ -501,6 +572,12 @@ def absorb(ctx, out, reqs, cases):
         ctx.streams[stream]['evaluations'] += max(n - 1, 0)
         ctx.streams[stream]['nontrivial'] += max(n - 1, 0)
         ctx.evaluations += max(n - 1, 0)
+    if 'collide' in out:
+        d = out['dotted']
+        ctx.count('fullname-collision', (src, layout_key(out['layout'])), nontrivial=out['collide'] > 0,
+                  bucket='module path depth %d%s, definitions whose qualname repeats a component of it: %s'
+                         % (len(d), ' (package)' if resolve_layout(out['layout'])[0].endswith('__init__.py') else '',
+                            '0' if not out['collide'] else '1-3' if out['collide'] <= 3 else '4+'))
     for stream, what, case, exp, obs in out['fails']:
         ctx.fail(stream, what, case, expected=exp, observed=obs, how=HOW)
     reqs.append({'op': 'analyse', 'scopes': table['scopes'], 'leaves': table['leaves'],
@@ -569,7 +646,12 @@ def compare(ctx, cases, answers):
                                short({'source': src, 'definition': d, 'jedi': [describe(table, s) for s in impl],
                                       'model': [describe(table, s) for s in chain]}, 1500))
             # contract: types and names along the chain
-            for (s, typ, name, _line) in d['chain']:
+            for (s, typ, name, _line, cfull) in d['chain']:
+                if s is not None and s >= 0 and a['scopefull'][s] != cfull:
+                    c['disagrees'] = True
+                    ctx.tie_broken('correspondence:full_name_of_parent',
+                                   short({'source': src, 'layout': c['layout'], 'scope': describe(table, s),
+                                          'jedi': cfull, 'model': a['scopefull'][s]}, 1500))
                 if s is not None and s >= 0:
                     sc = table['scopes'][s]
                     want = ('module', c['dotted'][-1]) if s == 0 else \
@@ -612,6 +694,34 @@ def gen_items(ctx):
     for i in range(n):
         layout = 'flat' if i % 4 else ['package', 'namespace', 'init', 'flat'][(i // 4) % 4]
         items.append({'prog': G.gen_program(rng, size=rng.choice([6, 10, 14])), 'layout': layout, 'tag': 'random'})
+    items += collision_items(ctx, ctx.subrng('collide'), ctx.size(30, 1500))
+    return items
+
+
+def collision_items(ctx, rng, n_random, systematic=True):
+    """the part of the domain where the module's dotted path and the qualname share spellings:
+    (a) the deterministic family: every path shape of depth <= 3 over two spellings (module / package,
+        regular / namespace parents) x three programs whose definitions are all called like the last or
+        the first component; quick tier: the spellings rotate with the seed, thorough: all pairs;
+    (b) random programs whose functions and classes share a small pool of spellings, in a random layout
+        whose components come from the same pool"""
+    items = []
+    if systematic:
+        pairs = [(x, y) for x in GL.DEF_NAMES for y in GL.DEF_NAMES if x != y]
+        if ctx.tier == 'quick':
+            k = int(ctx.seed) % len(pairs)
+            pairs = [pairs[k], pairs[(k + 7) % len(pairs)]]
+        for x, y in pairs:
+            lays = GL.systematic_layouts(x, y)
+            if ctx.tier == 'quick':
+                lays = [l for j, l in enumerate(lays) if j % 2 == pairs.index((x, y)) % 2]
+            for lay in lays:
+                for tag, prog in GL.collision_programs(lay['dotted']):
+                    items.append({'prog': prog, 'layout': lay, 'tag': tag})
+    for _ in range(n_random):
+        pools = GL.gen_pools(rng)
+        items.append({'prog': G.gen_program(rng, size=rng.choice([6, 10, 14]), pools=pools),
+                      'layout': GL.gen_layout(rng, pools), 'tag': 'random-collide'})
     return items
 
 
@@ -642,7 +752,7 @@ def run(ctx):
             if f.endswith('.json'):
                 with open(os.path.join(corpus_dir, f)) as fh:
                     d = json.load(fh)
-                pre.append({'prog': d['prog'], 'layout': d.get('layout', 'flat'), 'tag': 'witness'})
+                pre.append({'prog': d['prog'], 'layout': d.get('layout', 'flat'), 'tag': d.get('tag', 'witness')})
     items = pre + items
     outs = common.parallel_map('props.c18', 'analyse', items, jobs=14)
     fixed_probes(ctx)
@@ -684,7 +794,8 @@ def search(ctx):
     the direct oracle only"""
     rng = ctx.subrng('search')
     items = [{'prog': G.gen_program(rng, size=rng.choice([6, 10, 14])), 'layout': 'flat', 'tag': 'random'}
-             for _ in range(ctx.size(300, 3000))]
+             for _ in range(ctx.size(200, 2000))]
+    items += collision_items(ctx, rng, ctx.size(100, 1000), systematic=False)
     outs = common.parallel_map('props.c18', 'analyse', items, jobs=14)
     n = 0
     for out in outs:
@@ -798,19 +909,23 @@ def fixed_probes(ctx):
 
 
 def replay(ctx, payload):
+    """exit 1 = the recorded failure is reproduced on the code under test"""
     import jedi
     inp = payload['input']
     layout = inp.get('layout', 'flat')
-    _, rel, extra, dotted = LAYOUT[layout]
+    rel, extra, dotted = resolve_layout(layout)
     root = os.path.join(SCRATCH, 'replay-%d' % os.getpid())
     shutil.rmtree(root, ignore_errors=True)
+    rc = 0
     try:
         for e in extra + [rel]:
             p = os.path.join(root, e)
             os.makedirs(os.path.dirname(p), exist_ok=True)
             with open(p, 'w', encoding='utf-8') as f:
                 f.write(inp['source'] if e == rel else '')
-        script = jedi.Script(inp['source'], path=os.path.join(root, rel), project=jedi.Project(root))
+        path = os.path.join(root, rel)
+        script = jedi.Script(inp['source'], path=path, project=jedi.Project(root))
+        print('project root %s: file %s (+ %s), module %s' % (root, rel, extra, '.'.join(dotted)))
         print(inp['source'])
         d = script.get_context(inp['line'], inp['column'])
         print('get_context(%d, %d) -> %s %s line=%s full_name=%s' % (inp['line'], inp['column'], d.type, d.name, d.line, d.full_name))
@@ -821,9 +936,50 @@ def replay(ctx, payload):
                 while p is not None and len(chain) < 50:
                     p = p.parent()
                     if p is not None:
-                        chain.append((p.type, p.name, p.line))
+                        chain.append((p.type, p.name, p.line, p.full_name))
                 print('definition %s %s: full_name=%s parent chain=%s' % (n.type, n.name, n.full_name, chain))
         print('expected:', payload.get('expected'), ' observed at record time:', payload.get('observed'))
+        if payload.get('stream') == 'oracle-fullname':
+            # the property, evaluated again: CPython's __module__ + '.' + __qualname__ of the object defined at
+            # (line, column) vs every full_name jedi hands out for it
+            defs = py_defs(inp['source'])
+            modname, objs = import_objects(root, rel, dotted, defs)
+            finder = _NameFinder(defs)
+            finder.visit(ast.parse(inp['source']))
+            want = None
+            for i_, d_ in enumerate(defs):
+                kw = 6 if d_['async'] else 0
+                col = d_['start'][1] + kw + (6 if d_['kind'] == 'class' else 4)
+                if (d_['start'][0], col) == (inp['line'], inp['column']) and modname is not None:
+                    want = objs.get(i_)
+            got = {}
+            for n in script.get_names(all_scopes=True, definitions=True):
+                if (n.line, n.column) == (inp['line'], inp['column']):
+                    got['get_names'] = n.full_name
+                    for r in script.infer(n.line, n.column):
+                        if (r.line, r.column) == (n.line, n.column):
+                            got['infer'] = r.full_name
+                p = n.parent()
+                while p is not None:
+                    if (p.line, p.column) == (inp['line'], inp['column']):
+                        got['parent'] = p.full_name
+                    p = p.parent()
+            lines = inp['source'].split('\n')
+            for li in range(inp['line'], len(lines) + 1):
+                for c in range(len(lines[li - 1]) + 1):
+                    try:
+                        x = script.get_context(li, c)
+                    except Exception:
+                        continue
+                    if (x.line, x.column) == (inp['line'], inp['column']):
+                        got['get_context'] = x.full_name
+            print('CPython: %r   jedi full_name by route: %r' % (want, got))
+            bad = {k: v for k, v in got.items() if v != want}
+            if want is not None and bad:
+                print('REPRODUCED: full_name differs from __module__ + "." + __qualname__ via', sorted(bad))
+                rc = 1
+            else:
+                print('not reproduced')
     finally:
         shutil.rmtree(root, ignore_errors=True)
-    return 0
+    return rc
